@@ -19,6 +19,7 @@ package props
 import (
 	"bytes"
 	"crypto/hmac"
+	"crypto/sha1"
 	"crypto/sha256"
 	"encoding/base64"
 	"encoding/binary"
@@ -318,6 +319,28 @@ func deepJSON(r *vf.Rand, n int) []byte {
 var c07Depths = []int{1, 2, 17, 100, 1000, 5000, 9998, 9999, 10000, 10001, 20000}
 
 // hostile value for a member of a given name: same-type-but-wrong or any other type
+// c07CertMembers: now and then a header gets a REAL x5c together with thumbprints that match it (or one flipped):
+// the only inputs on which a decoder's thumbprint comparison SUCCEEDS — its success path is attacker-reachable too.
+func c07CertMembers(r *vf.Rand, h *jNode) {
+	if r.Intn(5) != 0 {
+		return
+	}
+	s1, s256 := sha1.Sum(c02Cert()), sha256.Sum256(c02Cert())
+	if r.Intn(4) == 0 {
+		s1[r.Intn(20)] ^= 1
+	}
+	if r.Intn(4) == 0 {
+		s256[r.Intn(32)] ^= 1
+	}
+	h.set("x5c", jA(jS(base64.StdEncoding.EncodeToString(c02Cert()))))
+	if r.Intn(3) != 0 {
+		h.set("x5t", jS(base64.RawURLEncoding.EncodeToString(s1[:])))
+	}
+	if r.Intn(3) != 0 {
+		h.set("x5t#S256", jS(base64.RawURLEncoding.EncodeToString(s256[:])))
+	}
+}
+
 func hostileValue(r *vf.Rand, name string, old *jNode) *jNode {
 	switch r.Intn(10) {
 	case 0:
@@ -362,7 +385,28 @@ func hostileValue(r *vf.Rand, name string, old *jNode) *jNode {
 		}
 		return k
 	case "x5c":
+		if r.Intn(3) == 0 { // a REAL certificate (alone, or followed by junk): only then do the thumbprint comparisons run
+			c := jS(base64.StdEncoding.EncodeToString(c02Cert()))
+			if r.Bool() {
+				return jA(c)
+			}
+			return jA(c, genJSON(r, 1))
+		}
 		return jA(jS(base64.StdEncoding.EncodeToString(r.Bytes(r.Intn(80)))), genJSON(r, 1))
+	case "x5t", "x5t#S256":
+		// the MATCHING thumbprint of that certificate (the success path of the comparison), or a flipped one
+		var d []byte
+		if name == "x5t" {
+			h := sha1.Sum(c02Cert())
+			d = h[:]
+		} else {
+			h := sha256.Sum256(c02Cert())
+			d = h[:]
+		}
+		if r.Intn(3) == 0 {
+			d[r.Intn(len(d))] ^= 1
+		}
+		return jS(base64.RawURLEncoding.EncodeToString(d))
 	case "keys", "signatures", "recipients", "oth", "key_ops", "aud":
 		n := &jNode{k: jArr}
 		cnt := vf.Pick(r, []int{0, 1, 2, 3, 50, 1000})
@@ -1044,6 +1088,7 @@ func mutateJWSJSON(r *vf.Rand, msg []byte) []byte {
 			name := vf.Pick(r, []string{"alg", "jwk", "kid", "jku", "x5c", "x5t", "crit", "b64", "typ", "x5u", "x5t#S256"})
 			h.set(name, hostileValue(r, name, nil))
 		}
+		c07CertMembers(r, h)
 		if s := t.get("signatures"); s != nil && s.k == jArr && len(s.arr) > 0 && s.arr[0].k == jObj {
 			s.arr[r.Intn(len(s.arr))].set("header", h)
 		} else {
@@ -1068,7 +1113,7 @@ func mutateJWEJSON(r *vf.Rand, msg []byte) []byte {
 	if t.k != jObj {
 		return msg
 	}
-	kmParams := []string{"alg", "enc", "zip", "epk", "apu", "apv", "iv", "tag", "p2s", "p2c", "kid", "crit", "jwk", "x5c", "x5u", "jku"}
+	kmParams := []string{"alg", "enc", "zip", "epk", "apu", "apv", "iv", "tag", "p2s", "p2c", "kid", "crit", "jwk", "x5c", "x5u", "jku", "x5c", "x5t", "x5t#S256"}
 	switch r.Intn(8) {
 	case 0: // move protected members into unprotected / per-recipient header
 		p := t.get("protected")
@@ -1102,6 +1147,7 @@ func mutateJWEJSON(r *vf.Rand, msg []byte) []byte {
 			name := vf.Pick(r, kmParams)
 			h.set(name, hostileValue(r, name, nil))
 		}
+		c07CertMembers(r, h)
 		switch r.Intn(3) {
 		case 0:
 			t.set("unprotected", h)
@@ -1236,6 +1282,7 @@ func genC07(r *vf.Rand, entry string) c07Case {
 				name := vf.Pick(r, []string{"alg", "alg", "jwk", "kid", "jku", "x5c", "x5t", "crit", "b64", "typ", "x5u", "x5t#S256", "cty"})
 				h.set(name, hostileValue(r, name, nil))
 			}
+			c07CertMembers(r, h)
 			cs.Input = []byte(b64seg(h) + "." + genB64Len(r) + "." + genB64Len(r))
 		default:
 			cs.Input, cs.Gen = mutateCompact(r, b.jwsCompact[i], b.jwsCompact), "mutation"
